@@ -187,6 +187,16 @@ def main():
             calc_ast_hash(s.query_ast)
     datasets = [DS(f"d{i}") for i in range(3)]
     out = []
+    sid = None
+    if job.get("simid") is not None:
+        import random
+
+        sys.path.insert(1, os.path.dirname(os.path.dirname(os.path.abspath(__file__))))
+        from sim.simid import SimId
+
+        sid = SimId(random.Random(job["simid"]))
+        sid.install()
+    reused0 = 0
     for b in job["builds"]:
         rec = {"id": b["id"], "stage": "build"}
         try:
@@ -221,6 +231,21 @@ def main():
                 out.append(rec)
                 continue
             rec["stage"] = "hash"
+            if b.get("crash"):
+                root = os.path.dirname(os.path.dirname(os.path.abspath(__file__)))
+                if root not in sys.path:
+                    sys.path.insert(1, root)
+                from sim.core import crash_at, crash_exception
+
+                cp = crash_at(b["crash"][0], crash_exception(b["crash"][1], "in a hash"),
+                              prefix=os.path.join(job["src"], "func_adl") + os.sep)
+                try:
+                    with cp:
+                        calc_ast_hash(a)
+                except BaseException as ex:
+                    if ex is not cp.exc:
+                        raise
+                rec["crashed"] = cp.fired
             h1 = calc_ast_hash(a)
             rec["stage"] = "after-hash"
             rec["hash"] = h1
@@ -265,6 +290,9 @@ def main():
                 rec["pickled"] = base64.b64encode(pickle.dumps(plain(a))).decode()
         except Exception as ex:
             rec["error"] = f"{type(ex).__name__}: {ex}"[:300]
+        if sid is not None:
+            rec["simid_reused"] = sid.reused - reused0
+            reused0 = sid.reused
         out.append(rec)
     sys.stdout.write(json.dumps(out))
 
